@@ -263,3 +263,12 @@ def tag_marker_recursion(frame, fields):
             new = b"\x01" + b"\xff" * 9 + b"\x01" + enc_uv(len(nested)) + nested
             out.append(_replace(frame, f, new, False))
     return out
+
+
+def schema_names(root=None):
+    """message index (position in Gen.schemas / msgs.All) -> 'pkg_Root', read from the regenerated Gen/Schemas.lean"""
+    import re as _re
+    root = root or os.path.dirname(os.path.dirname(os.path.abspath(__file__)))
+    txt = open(os.path.join(root, "lean", "KafkaVerif", "Gen", "Schemas.lean")).read()
+    m = _re.search(r"def schemas : List RawMsg := \[(.*?)\]", txt, _re.S)
+    return [x.strip()[2:] for x in m.group(1).split(",") if x.strip().startswith("m_")] if m else []
